@@ -11,13 +11,13 @@ import (
 func TestC17(t *testing.T) {
 	r := newRun(t, "C17", "exploration")
 	defer r.Finish(t)
-	r.Rule = "v1 priority discipline; generated scripts interleave AddInput of a new priority, replacement of a registered channel, RemoveInput and re-adding with a fresh channel (one priority per channel object, control calls issued from their own goroutines, one at a time) with writes, drains without release, release groups and sleeps; H is chosen so that every subset of the priorities that can be registered is non-fatal. Oracle: every item is tagged with the priority its channel was registered under; once RemoveInput / a replacing AddInput has returned, the number of items taken out of the old channel (completed writes minus len) is frozen at a quiescent point and no later delivery may exceed it; per channel, deliveries are exactly the first taken items in order; held <= H throughout (C01's oracle) also while items of a removed priority are in flight; after closing what is left, GracefulStop returns and the never-early conditions of C07 hold; the divider is only called with configured priorities (C15's contract monitor). non-trivial = scenario with >= 2 control calls of which >= 1 removal or replacement happened while items of that priority were in flight or buffered; distinct by scenario fingerprint"
+	r.Rule = "v1 priority discipline; generated scripts interleave AddInput of a new priority, replacement of a registered channel, RemoveInput and re-adding with a fresh channel (one priority per channel object, control calls issued from their own goroutines, one at a time) with writes, drains without release, release groups and sleeps; H is chosen so that every subset of the priorities that can be registered is non-fatal. Oracle: every item is tagged with the priority its channel was registered under; once RemoveInput / a replacing AddInput has returned, the number of items taken out of the old channel (completed writes minus len) is frozen at a quiescent point and no later delivery may exceed it; per channel, deliveries are exactly the first taken items in order; held <= H throughout (C01's oracle) also while items of a removed priority are in flight; after closing what is left, GracefulStop returns and the never-early conditions of C07 hold; the divider is only called with configured priorities (C15's contract monitor); a real-clock block repeats add / replace / remove from a control goroutine racing with H handler goroutines and live producers (tags, exactly-once, capacity, and no delivery from a channel beyond what had been taken when its removal returned, +1 for a send in progress). non-trivial = scenario with >= 2 control calls of which >= 1 removal or replacement happened while items of that priority were in flight or buffered; distinct by scenario fingerprint"
 	r.Assumptions = []string{prioAssume, "control calls block while the scheduler waits for feedback: the harness keeps releasing held items one by one until the pending call has returned"}
 	r.Floor = 20
 	if replayPrio(t, r) {
 		return
 	}
-	r.Parallel(t, "v1-add-remove", r.Cfg.pick(2500, 60000), func(t *testing.T, idx int, rng *rand.Rand) {
+	r.Parallel(t, "v1-add-remove", r.Cfg.pick(5000, 60000), func(t *testing.T, idx int, rng *rand.Rand) {
 		c := r.prioCase(t, genPrioScenario(rng, prioGen{Vers: []string{"v1"}, Dividers: allDividers, Mode: "addrm"}))
 		if c.res == nil {
 			return
@@ -31,13 +31,23 @@ func TestC17(t *testing.T) {
 			}
 		}
 	})
+	// real clock: control calls from their own goroutine racing with H handlers and live producers;
+	// tags, exactly-once, capacity, and (load-robust) nothing read from a channel after its
+	// removal / replacement returned beyond what had been taken then (+1 for a send in progress)
+	r.Parallel(t, "real-v1-control", r.Cfg.pick(300, 8000), func(t *testing.T, idx int, rng *rand.Rand) {
+		sc := genPrioRealScenario(rng, []string{"v1"}, true)
+		res := r.prioRealCase(t, sc)
+		if res.Rejected == "" && res.Stuck == "" && res.CtlDone >= 1 {
+			r.NonTrivial(jsonString(sc))
+		}
+	})
 }
 
 func TestC19(t *testing.T) {
 	r := newRun(t, "C19", "exploration")
 	defer r.Finish(t)
 	r.CensusEvery = 1
-	r.Rule = "every discipline of both versions is driven to termination in every way: input closure (v2 priority, v2 simple, join, unite, limit), GracefulStop (v1 priority, v1 Simple), Stop / cancel / Stop-after-GracefulStop at generated points (v1 priority, v1 Simple, v1 join), error termination after an injected divider fault; fake clock: after termination the stepper lets everything run to a blocked state, lets 1us virtual pass and takes a census of the bubble - any goroutine whose 'created by' line names a function of the library is a leak (harness goroutines that merely are inside Release() are not counted); a synctest report of blocked goroutines left behind is cross-checked. Real clock (join, unite, limit): after every batch a process-wide census with a 10s grace period. non-trivial = a scenario that terminated and was censused; the evidence tabulates censuses per (discipline, way of termination); distinct by scenario fingerprint"
+	r.Rule = "every discipline of both versions is driven to termination in every way: input closure (v2 priority, v2 simple, join, unite, limit), GracefulStop (v1 priority, v1 Simple), Stop / cancel / Stop-after-GracefulStop at generated points (v1 priority, v1 Simple, v1 join), error termination after an injected divider fault; fake clock: after termination the stepper lets everything run to a blocked state, lets 1us virtual pass and takes a census of the bubble - any goroutine whose 'created by' line names a function of the library is a leak (harness goroutines that merely are inside Release() are not counted); a synctest report of blocked goroutines left behind is cross-checked. Real clock (priority variants with H handler goroutines, join, unite, limit): after every batch a process-wide census with a 10s grace period. non-trivial = a scenario that terminated and was censused; the evidence tabulates censuses per (discipline, way of termination); distinct by scenario fingerprint"
 	r.Assumptions = []string{prioAssume, "runtime.Stack lists every goroutine with its creator"}
 	r.Floor = 30
 	if replayPrio(t, r) {
@@ -80,6 +90,15 @@ func TestC19(t *testing.T) {
 			r.NonTrivial(jsonString(res.sc))
 		}
 	})
+	r.Parallel(t, "priority-real", r.Cfg.pick(200, 4000), func(t *testing.T, idx int, rng *rand.Rand) {
+		sc := genPrioRealScenario(rng, allVers, false)
+		res := r.prioRealCase(t, sc)
+		if res.Rejected == "" && res.Stuck == "" {
+			r.Count("census.real."+sc.Ver, 1)
+			r.NonTrivial(jsonString(sc))
+		}
+	})
+	r.processCensus("priority-real")
 	r.Parallel(t, "join-real", r.Cfg.pick(200, 3000), join(joinGen{Discs: []string{"v1join", "v2join", "unite"}, Real: true, Stop: 1}))
 	r.processCensus("join-real")
 	r.Parallel(t, "limit-real", r.Cfg.pick(100, 2000), func(t *testing.T, idx int, rng *rand.Rand) {
